@@ -303,11 +303,12 @@ PLANS = {
     ),
     # not a listed property: growth of the specification beyond the list (DESIGN section 10); run with ./check extras
     "_extras": dict(
-        sany=["DltMisc.tla", "NvDecode.tla", "trace/TraceCodes.tla", "trace/TraceStats.tla", "trace/TraceDecode.tla"],
+        sany=["DltMisc.tla", "NvDecode.tla", "mc/MCDecode.tla", "trace/TraceCodes.tla", "trace/TraceStats.tla", "trace/TraceDecode.tla"],
         steps=[
             rec("codes", "misc", "TraceCodes", 300, 5000, 1, 2),
             rec("stats", "pipeline", "TraceStats", 600, 20000, 2, 8),
             rec("fibex", "decode", "TraceDecode", 200, 4000, 2, 8),
+            mc("decode", "MCDecode", "MCDecode.cfg", "MCDecode.cfg", replay=("fibex", "decode")),
         ],
         rule="service ids / control types: all 256 bytes; type widths, argument counts: seeded random; pipeline: seeded random well-formed streams x random filters",
         explanation="Beyond the listed properties: service_id_lookup, ControlType::from_value / value, TypeInfo::type_width, PayloadContent::arg_count, LogLevel -> log::Level "
